@@ -217,6 +217,14 @@ def run(facts, R):
             det = render(disp)[:160]
             if is_call(disp, "server::wrap_with_middlewares"):
                 ok = disp[2][0] == raw and render(disp[2][1]).endswith("middlewares")
+                if not ok and raw in disp[2]:
+                    # the wrapper as a method of the router (`self.wrap(raw)`): the chain it applies is the router's own list,
+                    # read inside the wrapper
+                    wb_ = facts.bodies.get("server::wrap_with_middlewares")
+                    other = [a for a in disp[2] if a != raw]
+                    self_like = all(render_n(a).endswith("self") or render_n(a) == "arg1" for a in other)
+                    reads_list = wb_ is not None and any("middlewares" in render(Sym(wb_).op(a)) for _, t_ in wb_.calls() for a in t_["args"])
+                    ok = self_like and reads_list
             elif disp[0] in ("local", "arg"):
                 # hoisted into a variable: its single definition must be the wrap of the same raw
                 defs = [dd for dd in b.defs_of(disp[1]) if dd[0] == "call"]
